@@ -282,6 +282,12 @@ def r5_frontend_filters(chk, repo):
 
 
 # ------------------------------------------------------------------------------------ R6
+def _has(cfg, node, pattern, pol):
+    from ..pattern import has_fact
+
+    return has_fact(cfg, node, pattern, pol)
+
+
 def single_producer(chk, repo, rule="C11.R6"):
     chk.describe(rule, "each data type has exactly one producer: outputs of a multi-output plugin that are fed by a loader are excluded from the plugin's fan-out in both processors")
     # single thread
@@ -295,13 +301,13 @@ def single_producer(chk, repo, rule="C11.R6"):
     rp = repo.func("PostOffice.register_producer", POST)
     rcfg = cfg_of(rp)
     rec = [n for n in rcfg.stmt_nodes() if not isinstance(n.stmt, COMPOUND) and node_calls(n, lambda c, nm: nm == "self.register_producer")]
-    chk.check(bool(rec) and all(("sub_topic not in registered", True) in rcfg.guard_facts(n) or ("sub_topic in registered", False) in rcfg.guard_facts(n) for n in rec), rule, rp, None, "PostOffice registers a producer for sub-topics that are already fed by a loader", site_text="PostOffice.register_producer: skips sub-topics in `registered`")
+    chk.check(bool(rec) and all(_has(rcfg, n, "L_t not in registered", True) or _has(rcfg, n, "L_t in registered", False) for n in rec), rule, rp, None, "PostOffice registers a producer for sub-topics that are already fed by a loader", site_text="PostOffice.register_producer: skips sub-topics in `registered`")
     dup = [n for n in rcfg.stmt_nodes() if isinstance(n.stmt, ast.Raise) and ("topic in self._producers", True) in rcfg.guard_facts(n)]
     chk.check(bool(dup), rule, rp, None, "a second producer for one topic is silently accepted", site_text="PostOffice.register_producer: raises on a second producer")
     fn = repo.func("PostOffice._fetch_new", POST)
     fcfg = cfg_of(fn)
     acks = [n for n in fcfg.stmt_nodes() if not isinstance(n.stmt, COMPOUND) and node_calls(n, lambda c, nm: nm == "self._ack_msg_produced") and enclosing(n.stmt, (ast.For,)) is not None]
-    chk.check(bool(acks) and all(("sub_msg_topic in self._multi_output_topics", True) in fcfg.guard_facts(n) for n in acks), rule, fn, None, "sub-messages are delivered for topics that the multi-output producer does not own", site_text="PostOffice._fetch_new: sub-message acknowledged only for owned sub-topics")
+    chk.check(bool(acks) and all(_has(fcfg, n, "L_t in self._multi_output_topics", True) for n in acks), rule, fn, None, "sub-messages are delivered for topics that the multi-output producer does not own", site_text="PostOffice._fetch_new: sub-message acknowledged only for owned sub-topics")
     # threaded
     tm = repo.func("ThreadedMailboxProcessor.__init__", THREADED)
     tdefs = Defs(tm.node)
